@@ -99,8 +99,12 @@ def _range_features(body):
     for s in body.calls(re.compile(r"vec::from_elem$")):
         e = expr(body, s.node["args"][1])
         sh = show(strip_refs(e))
-        if "end" in sh and "start" in sh:
-            out.append(("size", _classify_size(e), s))
+        if fmtfeat.const_eval(strip_refs(e)) is not None:
+            continue        # a fixed-size scratch buffer
+        if (s.node.get("targs") or [None])[0] != "u8":
+            continue        # not a byte buffer (completion bookkeeping and the like)
+        # every variable-size buffer of the read path is a range buffer: its size must be the range's length
+        out.append(("size", _classify_size(e), s))
     for s in body.calls(re.compile(r"SharedMmap::read$")):
         e = expr(body, s.node["args"][1])
         if "start" in show(e):
@@ -117,25 +121,44 @@ def check_range_builders(ctx, facts):
     fm = _range_features(main)
     if fm:
         sibs["io_uring loop"] = (main, fm)
-    for clo in facts.closures_of(main, recursive=False):
+    from .core import inline as _inl
+    known = _inl.known_functions(facts.crate) or set()
+    for nm, hb in facts.bodies.items():
+        if hb.kind != "Closure" and not hb.j.get("derived") and not hb.j.get("absorbed") and known and _inl._sg(nm) not in known:
+            fh = _range_features(hb)
+            if fh:
+                ctx.saw_body(hb)
+                sibs[common.short_fn(hb.name).split("::")[-1]] = (hb, fh)
+    for clo in facts.closures_of(main, recursive=True):
         fc = _range_features(clo)
-        if any(k == "size" for k, _, _ in fc) and any(k == "offset" for k, _, _ in fc):
+        if fc:
             ctx.saw_body(clo)
             sibs[common.short_fn(clo.name).split("::")[-1]] = (clo, fc)
-    if len(sibs) < 3:
-        ctx.floor("C16.2", "read-range builders of batch_read_for_topic", len(sibs), 2)
-        return
+    # every place that sizes a range buffer or computes the file offset of a range uses the one pair of formulas, whichever
+    # backend it serves and wherever the code lives (the function, a closure of it, a helper inlined into it)
+    n_pos = n_ring = n_size = 0
     for n in sorted(sibs):
         b, fs = sibs[n]
-        size = sorted({c for k, c, s in fs if k == "size"})
-        off = sorted({c for k, c, s in fs if k == "offset"})
         F = common.short_fn(b.name)
-        line = fs[0][2].line
-        if size == ["end-start"] and off == ["blk.offset+start"]:
-            ctx.ok("C16.2", F, "range builder `%s`: size = end - start, offset = blk.offset + start" % n, b.relfile, line)
-        else:
-            ctx.violate("C16.2", F, "range-builder-differs:" + n, b.relfile, line,
-                        "range builder `%s` computes size %s and file offset %s; the siblings compute end-start and blk.offset+start" % (n, size, off))
+        for k, c, s_ in fs:
+            cal = strip_generics(s_.node.get("callee") or "")
+            if k == "size":
+                n_size += 1
+                want = "end-start"
+            else:
+                want = "blk.offset+start"
+                if cal.endswith("opcode::Read::offset"):
+                    n_ring += 1
+                else:
+                    n_pos += 1
+            if c == want:
+                ctx.ok("C16.2", F, "range %s = %s (%s)" % (k, want, n), b.relfile, s_.line)
+            else:
+                ctx.violate("C16.2", F, "range-builder-differs:" + n, b.relfile, s_.line,
+                            "range builder `%s` computes the %s of a planned range as %s; the siblings compute %s" % (n, k, c, want))
+    ctx.floor("C16.2", "range buffer sizes in batch_read_for_topic", n_size, 1)
+    ctx.floor("C16.2", "positional (mmap / pread) range offsets in batch_read_for_topic", n_pos, 1)
+    ctx.floor("C16.2", "io_uring range offsets in batch_read_for_topic", n_ring, 1)
 
 
 def check_dispatch(ctx, facts):
